@@ -164,12 +164,16 @@ def main():
         # callee rule: verification is modular, so the proof of a P-labelled clause of unit U leans on the contract of every
         # unit V that U calls. When V fails a clause that does not itself name P, P's proof has a hole: not an alarm
         # (the failing clause belongs to another property's statement), but not decided either - never silently exit 0.
+        # Applies only when V has no P-labelled clause of its own (otherwise those are what P's proofs lean on).
         p_units = set(o["unit"] for o in obs)
         for f in am["failures"]:
             if f.get("props") and (pid in f["props"] or "*" in f["props"]):
                 continue
             v = f.get("clause_unit") or f.get("owner")
             if not v or v not in built["main"].units:
+                continue
+            # V carries clauses for P of its own and none of THEM failed: P's proofs in the callers go through those
+            if pid in (built["main"].units[v].get("props") or []):
                 continue
             vname = v.split("/")[0].split("::")[-1].replace("fn ", "").strip()
             if not re.match(r"^[A-Za-z_][A-Za-z0-9_]*$", vname):
